@@ -6,6 +6,7 @@
   specification `SortSpec.sortDir` (stable insertion sort).  Helper lemmas live in
   `Jawk/Lemmas/Order.lean` and `Jawk/Lemmas/BucketSort.lean`.
 -/
+import Jawk.Lemmas.RunCor
 import Jawk.Lemmas.Order
 import Jawk.Lemmas.BucketSort
 import Jawk.Lemmas.SortFns
@@ -143,6 +144,25 @@ theorem direction_case_insensitive (t : Str) :
 theorem direction_words :
     directionOf [] = .ok false ∧ directionOf "asc".toList = .ok false ∧ directionOf "DESC".toList = .ok true ∧
     directionOf "DeSc".toList = .ok true := ⟨rfl, rfl, rfl, rfl⟩
+
+
+/-! ### the option as a whole: what `--sort-by E [ASC|DESC]` alone does to a run's rows -/
+
+/-- a configuration with just `--sort-by`: the rows that reach the printer are the stable sort, in the requested
+direction, of the rows whose key is present (rows with an absent key are dropped) — a permutation of those rows,
+sorted, ties in arrival order -/
+theorem sort_by_option (orc : Oracles) (s : Str) (e : Expr) (d : Bool) (hs : parseSorter s = .ok (e, d)) :
+    ∃ p, build orc { sorts := [s] } = .ok p ∧ p.cfgs = [.sort e d] ∧ p.sts = [.sort [] none] ∧
+      ∀ rows, RunCor.R orc p rows
+        = (sortDir JV.cmp (·.1) d (Pipe.keyed (Pipe.evalT orc) e rows)).map (·.2) :=
+  RunCor.only_sort orc s e d hs
+
+theorem sort_by_option_props (orc : Oracles) (e : Expr) (d : Bool) (rows : List Ctx) :
+    let out := sortDir JV.cmp (·.1) d (Pipe.keyed (Pipe.evalT orc) e rows)
+    out.Perm (Pipe.keyed (Pipe.evalT orc) e rows) ∧ SortedDir JV.cmp (·.1) d out ∧
+      ∀ k, out.filter (fun x => JV.cmp x.1 k = .eq)
+        = (Pipe.keyed (Pipe.evalT orc) e rows).filter (fun x => JV.cmp x.1 k = .eq) :=
+  RunCor.only_sort_props orc e d rows
 
 /-! ### non-vacuity -/
 example : JV.cmp (.num (.pos 2)) (.num (.pos 10)) = .lt := by decide
